@@ -59,7 +59,10 @@ def load_module(spec):
         b = bytes.fromhex(spec["hex"])
         m = decode(b)
         imp = spec.get("imports_spec") or {}
+        fill = imp.get("mem_fill")
         imp = {"globals": {int(k): int(v) for k, v in (imp.get("globals") or {}).items()}}
+        if fill:
+            imp["mem_fill"] = {int(k): [[int(o), str(h)] for o, h in v] for k, v in fill.items()}
         exports = []
         seen = set()
         for e in m.exports:
@@ -206,7 +209,7 @@ def e2e_job(job):
             v0 = v8.run(b, [], imp, mem_hash=True, module=m)
             out["v8_init"] = v8_dict(v0)
         name = "m" + re.sub(r"\W", "_", spec_id(spec))[-40:] + "_%d" % os.getpid()
-        tr = e2e.translate(w2c2, work, name, b, job.get("opts", ()))
+        tr = e2e.translate(w2c2, work, name, b, tuple(job.get("opts", ())) + tuple(spec.get("w2c2_opts", ())))
         out["w2c2_stderr"] = tr.stderr[-300:] if not tr.ok else ""
         if tr.ok:
             ctext = "".join(open(f).read() for f in tr.cfiles)
@@ -505,8 +508,8 @@ NAN_LEAK_OPS = {"i32.reinterpret_f32", "i64.reinterpret_f64", "f32.copysign", "f
 
 
 def _is_core_op(op):
-    """instruction covered by Model/Sim.lean (still outside: memory.copy/fill/init, data.drop, atomics)"""
-    if op in CORE_OPS or op in ("global.get", "global.set", "memory.size", "memory.grow"):
+    """instruction covered by Model/Sim.lean (still outside: data.drop, atomics)"""
+    if op in CORE_OPS or op in ("global.get", "global.set", "memory.size", "memory.grow", "memory.copy", "memory.fill", "memory.init"):
         return True
     o = A.OPS.get(op)
     if o is None:
@@ -680,6 +683,8 @@ def sim_lines(join, m, imp, calls, plan, depth=6000):
         for seg in m.datas:
             if seg.mode == "active" and len(seg.data):
                 lines.append("E data %d %s" % (e2e.const_value(m, seg.offset, imp) & 0xFFFFFFFF, bytes(seg.data).hex()))
+        for seg in m.datas:                              # every segment, in index order: what memory.init reads
+            lines.append("E seg %s" % (bytes(seg.data).hex() or "-"))
     elem_at = None
     tabs = m.all_tables()
     if tabs:
